@@ -114,6 +114,7 @@ template <typename T>
 inline typename ObjectPool<T>::Deleter& ObjectPool<T>::Deleter::operator=(
     Deleter&& other) noexcept {
   ::std::swap(_pool, other._pool);
+  return *this;
 }
 
 template <typename T>
